@@ -3,6 +3,7 @@ package props
 import (
 	"bytes"
 	"fmt"
+	"github.com/tobgu/qframe/types"
 	"regexp"
 	"strings"
 	"testing"
@@ -270,4 +271,38 @@ func TestC12Delims(t *testing.T) {
 	evC12.CaseHash(true, 0x44454c49, func() string {
 		return fmt.Sprintf("exhaustive: all %d possible delimiter bytes on a small document", n)
 	}, "all-delimiters")
+}
+
+// TestC07Runes: the string functions of the default evaluation context over every code point (alone and embedded),
+// evaluated through Eval: upper and lower denote strings.ToUpper / strings.ToLower, len the byte length.
+func TestC07Runes(t *testing.T) {
+	var cells []string
+	for r := rune(0); r <= unicode.MaxRune; r++ {
+		if r >= 0xD800 && r <= 0xDFFF {
+			continue
+		}
+		cells = append(cells, string(r), "b"+string(r)+"y")
+	}
+	qf := qframe.New(map[string]interface{}{"s": cells})
+	res := qf.Eval("u", qframe.Expr("upper", types.ColumnName("s"))).Eval("l", qframe.Expr("lower", types.ColumnName("s"))).Eval("n", qframe.Expr("len", types.ColumnName("s")))
+	if res.Err != nil {
+		t.Fatal(res.Err)
+	}
+	u, l, n := res.MustStringView("u"), res.MustStringView("l"), res.MustIntView("n")
+	bad := 0
+	for i, c := range cells {
+		gu, gl := u.ItemAt(i), l.ItemAt(i)
+		if wu, wl := strings.ToUpper(c), strings.ToLower(c); gu == nil || *gu != wu || gl == nil || *gl != wl || n.ItemAt(i) != len(c) {
+			if bad < 5 {
+				t.Errorf("upper/lower/len(%q) = %q, %q, %d; want %q, %q, %d (code point %U)", c, ptrStr(gu), ptrStr(gl), n.ItemAt(i), wu, wl, len(c), []rune(c))
+			}
+			bad++
+		}
+	}
+	if bad > 0 {
+		t.Fatalf("the string functions of the default context differ from their denotation for %d of %d cells", bad, len(cells))
+	}
+	evC07.CaseHash(true, 0x52554e45, func() string {
+		return fmt.Sprintf("exhaustive: upper, lower and len of the default context over all %d code points, alone and embedded", len(cells)/2)
+	}, "all-code-points")
 }
